@@ -603,6 +603,11 @@ def solve_projection_onto_manifold_newton_with_line_search(
                 if new_error < error:
                     break
                 step_size *= 0.5
+            else:
+                # Line search did not find a step size reducing the error. Make
+                # sure position update uses same step size as Lagrange multiplier
+                # update below so that momentum update remains consistent
+                state.pos = pos_curr + step_size * delta_pos
             mu += step_size * delta_mu
         except (ValueError, LinAlgError) as e:
             # Make robust to errors in intermediate linear algebra ops
